@@ -632,6 +632,7 @@ def run(ctx, shard):
         r = max(1, int((ev > 1e-13).sum()))
         return desc, (2, 2), rho, r
 
+    reuse_pool = {}
     for it in range(shard['nstate']):
         desc, dims, rho, rank = model_state(it)
         ent = dims == (2, 2) and T2.concurrence(rho) > 1e-6
@@ -643,7 +644,17 @@ def run(ctx, shard):
             cfg = {'model': kind, 'state': desc, 'dims': list(dims), 'rank': rank, 'ensemble': n_ens}
             ctx.set_case(cfg)
             with ctx.guard(f'model/{kind}'):
-                model, extra_cfg = build(dims, n_ens, rank, it)
+                # history: a model object is re-used for a sequence of states of the same configuration (set_density_matrix called again
+                # on the same object) about half of the time; every forward must refer to the state that was set LAST
+                rkey = (tuple(dims), n_ens, rank)
+                prev = reuse_pool.get(rkey)
+                if prev is not None and rng.random() < 0.6:
+                    model, extra_cfg = prev
+                    cfg['reused_model_object'] = True
+                    ctx.hit('model/reused-object')
+                else:
+                    model, extra_cfg = build(dims, n_ens, rank, it)
+                    reuse_pool[rkey] = (model, extra_cfg)
                 cfg.update(extra_cfg)
                 ctx.set_case(cfg)
                 model.set_density_matrix(rho)
